@@ -137,13 +137,13 @@ theorem WF_of_inv {shape : Shape} {m : Mach U} (hi : Mach.Inv (shape.toNode 0 0)
 /-- **C01.** For every machine structure, configuration, sequence of API calls, decisions of the user
 callbacks and generator outputs: if the model met no contract violation, the states reported active
 form a well-formed configuration of the hierarchy. -/
-theorem C01 (shape : Shape) (cfg : Config) (steps : List (Step U))
+theorem C01 (shape : Shape) (cfg : Config) (steps : List (ApiStep U))
     (he : ((Mach.create shape cfg : Mach U).run steps).w.err = none) :
     WF ((Mach.create shape cfg : Mach U).run steps).root :=
   WF_of_inv (Mach.run_inv steps _ (Mach.create_inv shape cfg) he)
 
 /-- … and while the machine is not activated no state at all is reported active. -/
-theorem C01_inactive (shape : Shape) (cfg : Config) (steps : List (Step U))
+theorem C01_inactive (shape : Shape) (cfg : Config) (steps : List (ApiStep U))
     (he : ((Mach.create shape cfg : Mach U).run steps).w.err = none)
     (hm : ((Mach.create shape cfg : Mach U).run steps).root.machineActive = false) (id : Nat) :
     ((Mach.create shape cfg : Mach U).run steps).root.isActive id = false :=
@@ -151,7 +151,7 @@ theorem C01_inactive (shape : Shape) (cfg : Config) (steps : List (Step U))
 
 /-- **C01, inside callbacks.** Every observation a user callback received during the run (every trace
 event that carries one) is `Node.observe` of a tree of the machine's structure that satisfies `WF`. -/
-theorem C01_callbacks (shape : Shape) (cfg : Config) (steps : List (Step U))
+theorem C01_callbacks (shape : Shape) (cfg : Config) (steps : List (ApiStep U))
     (he : ((Mach.create shape cfg : Mach U).run steps).w.err = none)
     (sid : Nat) (m : Method) (slot : Nat) (o : Obs) (p c : List Transition)
     (hev : Event.cb sid m slot (some o) p c ∈ ((Mach.create shape cfg : Mach U).run steps).w.trace) :
@@ -192,7 +192,7 @@ def exShape : Shape :=
         (.cons (.compo true 0 .composite (.cons (.leaf 0) (.cons (.leaf 0) .nil))) .nil)))
      .nil))
 
-def exSteps : List (Step Nat) :=
+def exSteps : List (ApiStep Nat) :=
   [ ⟨quiet 80, [], .enter⟩,                       -- enters root, A, A1
     ⟨quiet 80, [], .immediate .change 8 none⟩,    -- to C2: exits A1, A; enters B, B1, C, C2
     ⟨quiet 80, [], .update⟩,
@@ -218,7 +218,7 @@ def exShape2 : Shape :=
     (.cons (.compo true 0 .random (.cons (.leaf 0) (.cons (.leaf 0) .nil))) .nil))
 
 /-- `select()` answers, ranks and utilities, a generator output, and a vetoing exit guard -/
-def exSteps2 : List (Step Nat) :=
+def exSteps2 : List (ApiStep Nat) :=
   [ ⟨[.retSelect 1] :: quiet 10, [], .enter⟩,
     ⟨[[.retRank 0], [.retRank 0], [.retUtil 1], [.retUtil 3]] ++ quiet 20, [0], .immediate .randomize 4 none⟩,
     ⟨[[.retSelect 0], [.cancel]] ++ quiet 20, [], .immediate .change 1 none⟩ ]
